@@ -123,6 +123,12 @@ def render_seq(head, opt_toks, layout, rng):
         for o in opt_toks:
             lines.append("  " + render(o, {"case": case}, rng))
         return "\n".join(lines) + ";"
+    if layout == "words":
+        # every word of the option list on a line of its own (a signed value then opens a line)
+        lines = [render(head, {"case": case}, rng)]
+        for o in opt_toks:
+            lines += ["  " + w for w in render(o, {"case": case}, rng).split(" ") if w]
+        return "\n".join(lines) + ";"
     toks = list(head)
     for o in opt_toks:
         toks += o
@@ -140,7 +146,7 @@ def build_case(rng, orders, gen):
             plan.append({"kind": "neighbour", "ddl": nb})
         head, opt_toks, exp = gen_sequence(rng, order, n)
         n += 1
-        stmts.append(render_seq(head, opt_toks, rng.choice(["single", "lines", "ws"]), rng))
+        stmts.append(render_seq(head, opt_toks, rng.choice(["single", "lines", "ws", "words"]), rng))
         plan.append({"kind": "sequence", "expected": exp})
     if rng.random() < 0.5:
         nb = pick_neighbour(rng, n)
